@@ -46,5 +46,20 @@ Step(st, msg) ==     \* -> [class, next]
       [] msg.m = "abort" ->
            IF s.active THEN [class |-> "ok", next |-> [st EXCEPT ![msg.a] = NoSess(s)]]
            ELSE [class |-> "refused", next |-> st]
+\* "oddprepare": a prepare the instance may or may not be able to act on (threshold 0 - the value of an absent field; a participant list
+\* without the instance itself; a threshold above the number of participants).  Whether it is accepted is the instance's business - but it
+\* is refused while a generation is active, and the answer is the truth: accepted = a generation is active from now on, refused =
+\* nothing has changed.  (result: what the instance answered.)
+OddStep(s, a, result) ==
+    IF s[a].active THEN [class |-> "refused", next |-> s]
+    ELSE IF result = "ok" THEN [class |-> "ok", next |-> [s EXCEPT ![a] = [s[a] EXCEPT !.active = TRUE, !.got = {}]]]
+    ELSE [class |-> result, next |-> s]
+
+\* the law behind every "refused" of the property: a message that is refused changes nothing (checked over the whole relation when TLC
+\* loads the module).  The unchanged code broke it for a prepare that failed after the generation had been put on record (/repo 3dccdd9).
+RefusedChangesNothing ==
+    /\ \A st \in States : \A msg \in Msgs : Step(st, msg).class = "refused" => Step(st, msg).next = st
+    /\ \A st \in States : \A a \in Accts : \A res \in {"ok", "refused"} : OddStep(st, a, res).class = "refused" => OddStep(st, a, res).next = st
+ASSUME RefusedChangesNothing
 
 =============================================================================
